@@ -1,4 +1,4 @@
-import Rangers.Proofs.JournalSuicide
+import Rangers.Proofs.JournalSteps3
 /-!
 # Property C04 — reverting to a snapshot restores the account state exactly
 
@@ -19,14 +19,15 @@ All theorems are about `Rangers.Model.Journal` — the model `drv_c04` executes 
 namespace Rangers.Props.C04
 open Rangers Rangers.Model.Journal Rangers.Proofs.Journal
 
-/-- ops for which the undo-inverse lemma is proved (`Proofs/JournalSteps`) -/
+/-- ops whose undo-inverse lemma needs no side condition (`Proofs/JournalSteps*`); SetCode, Suicide, AddLog and
+    AddSlotToAccessList are covered under the conditions in `StepOk`; only `GetCommittedState` is left out -/
 def Covered : Op → Bool
   | .setNonce .. | .incNonce .. | .setData .. | .create .. => true
   | .addBal .. | .subBal .. | .setBal .. | .transfer .. | .qBal .. => true
   | .addFT .. | .subFT .. | .setFT .. | .qFT .. => true
   | .addRefund .. | .subRefund .. | .alAddr .. | .tset .. => true
   | .snapshot | .revert .. => true
-  | .qExist .. | .qEmpty .. | .qNonce .. | .qData .. | .qSuicided .. | .qCodeSize .. | .qCodeHash .. => true
+  | .qExist .. | .qEmpty .. | .qNonce .. | .qData .. | .qSuicided .. | .qCode .. | .qCodeSize .. | .qCodeHash .. => true
   | _ => false
 
 /-- `SetCode` journals the previous code hash through `common.BytesToHash`: the object's current code
@@ -43,6 +44,8 @@ instance (s : ADB) (a : Addr) : Decidable (CodeHashOk s a) := by
 def StepOk (c : Cfg) (s : ADB) : Op → Prop
   | .setCode a _ _ => CodeHashOk s a
   | .suicide a => SuicideOk c s a
+  | .addLog .. => AddLogOk s
+  | .alSlot a _ => AddSlotOk s a
   | op => Covered op = true
 
 instance (c : Cfg) (s : ADB) (op : Op) : Decidable (StepOk c s op) := by
@@ -51,6 +54,13 @@ instance (c : Cfg) (s : ADB) (op : Op) : Decidable (StepOk c s op) := by
 instance decRunOk (c : Cfg) : (ops : List Op) → (s : ADB) → Decidable (RunOk (StepOk c) c s ops)
   | [], _ => isTrue trivial
   | op :: ops, s => @instDecidableAnd _ _ inferInstance (decRunOk c ops (step c s op))
+
+/-- what `StepOk` excludes: `GetCommittedState`, and the four ops with a side condition when it fails -/
+theorem uncovered_ops (c : Cfg) (s : ADB) (op : Op) (h : ¬ StepOk c s op) :
+    (∃ a k, op = .qCommitted a k) ∨ (∃ a cd hh, op = .setCode a cd hh ∧ ¬ CodeHashOk s a) ∨
+    (∃ a, op = .suicide a ∧ ¬ SuicideOk c s a) ∨ (∃ a t d, op = .addLog a t d ∧ ¬ AddLogOk s) ∨
+    (∃ a sl, op = .alSlot a sl ∧ ¬ AddSlotOk s a) := by
+  cases op <;> simp_all [StepOk, Covered]
 
 /-- every op of the run is covered -/
 def AllCovered (ops : List Op) : Prop := ∀ op ∈ ops, Covered op = true
@@ -66,6 +76,9 @@ theorem step_revAt (c : Cfg) (hp : c.p002 = true) (s : ADB) (op : Op) (hc : Step
     unfold CodeHashOk at this
     rw [hr] at this; exact this
   | suicide a => exact revAt_suicide c s a hc
+  | addLog a t d => exact revAt_addLog c s a t d hc
+  | alSlot a sl => exact revAt_alSlot c s a sl hc
+  | qCode a => exact revAt_qCode c s a
   | setNonce a n => exact revAt_setNonce c s a n
   | incNonce a => exact revAt_incNonce c s a
   | setData a k v => exact revAt_setData c s a k v
@@ -196,7 +209,8 @@ def demoOps : List Op :=
     the region changes observations, and the revert brings them back -/
 example : AllCovered demoOps := by decide
 example : RunOk (StepOk c0) c0 (snapshot (setNonce ADB.empty A1 1)).1
-    (demoOps ++ [.setCode A1 [0x60] (toHash [9]), .addFT A1 [0x66, 0x3a, 0x78] 0, .suicide A1, .qFT A1 [0x66, 0x3a, 0x78]]) := by
+    (demoOps ++ [.setCode A1 [0x60] (toHash [9]), .addFT A1 [0x66, 0x3a, 0x78] 0, .suicide A1, .qFT A1 [0x66, 0x3a, 0x78],
+       .addLog A1 [] [1], .alSlot A1 (toHash [1]), .alSlot A1 (toHash [2]), .qCode A1]) := by
   decide
 example : (revert c0 (run c0 (snapshot (setNonce ADB.empty A1 1)).1 demoOps) 0).crashed = false := by decide
 example : obs c0 (run c0 (snapshot (setNonce ADB.empty A1 1)).1 demoOps) A1 [0x6b] [] [1]
